@@ -651,7 +651,10 @@ class ISD(model.Document):
     
     # prune or keep the element
 
-    if isinstance(isd_element, (model.Br, model.Text,model.Rb, model.Rbc)):
+    # the parts of a ruby container are kept even when they are empty, since
+    # the container is valid only if it is complete
+
+    if isinstance(isd_element, (model.Br, model.Text, model.Rb, model.Rbc, model.Rt, model.Rtc, model.Rp)):
       return isd_element
 
     if isd_element.has_children():
